@@ -266,9 +266,11 @@ where
                 let text = editor.text_mut();
 
                 let tokens = Tokens::new(text);
-                self.process_input::<C, _>(tokens, processor)?;
+                let result = self.process_input::<C, _>(tokens, processor);
 
+                // text was tokenized in place, so it's cleared even if processing failed
                 editor.clear();
+                result?;
 
                 self.writer.flush_str(self.prompt)?;
             }
